@@ -24,18 +24,19 @@
 (***************************************************************************)
 EXTENDS Integers, Sequences, FiniteSets, TLC, Json, SequencesExt
 
-CONSTANTS Cwds, Tmps, Envs, Aslrs, Perturbs, Invs,   \* value sets of the dimensions (strings)
+CONSTANTS Cwds, Tmps, Envs, Aslrs, Perturbs, Invs, Decoys,   \* value sets of the dimensions (strings)
           MaxWalk,                                   \* environment steps per walk
           Start                                      \* rotates the tie-breaking of the greedy choice (seed)
 
 VARIABLES cfg,        \* [cwd, tmp, env, aslr, perturb, inv, rep]
           artifact    \* what the compiler emits for the source under cfg (abstract value)
 
-Dims == <<"cwd", "tmp", "env", "aslr", "perturb", "inv">>
+Dims == <<"cwd", "tmp", "env", "aslr", "perturb", "inv", "decoy">>
 Vals(d) == CASE d = "cwd" -> Cwds [] d = "tmp" -> Tmps [] d = "env" -> Envs
              [] d = "aslr" -> Aslrs [] d = "perturb" -> Perturbs [] d = "inv" -> Invs
+             [] d = "decoy" -> Decoys
 
-Configs == [cwd : Cwds, tmp : Tmps, env : Envs, aslr : Aslrs, perturb : Perturbs, inv : Invs, rep : Nat]
+Configs == [cwd : Cwds, tmp : Tmps, env : Envs, aslr : Aslrs, perturb : Perturbs, inv : Invs, decoy : Decoys, rep : Nat]
 
 \* ---- environment actions: each leaves `artifact` alone --------------------
 ChangeCwd(c)  == c \in Cwds /\ c # cfg.cwd /\ cfg' = [cfg EXCEPT !.cwd = c, !.rep = 0] /\ UNCHANGED artifact
@@ -44,6 +45,12 @@ ChangeEnv(e)  == e \in Envs /\ e # cfg.env /\ cfg' = [cfg EXCEPT !.env = e, !.re
 ToggleASLR(a) == a \in Aslrs /\ a # cfg.aslr /\ cfg' = [cfg EXCEPT !.aslr = a, !.rep = 0] /\ UNCHANGED artifact
 TogglePerturb(p) == p \in Perturbs /\ p # cfg.perturb /\ cfg' = [cfg EXCEPT !.perturb = p, !.rep = 0] /\ UNCHANGED artifact
 RelAbsPath(v) == v \in Invs /\ v # cfg.inv /\ cfg' = [cfg EXCEPT !.inv = v, !.rep = 0] /\ UNCHANGED artifact
+\* The working directories other than the one that holds the sources contain ("yes") or do not
+\* contain ("no") unrelated files that carry the names of the modules the program imports (and of
+\* the main file), with different contents.  Imports are resolved relative to the importing file,
+\* so what lies in the working directory is environment: it must not reach the artifact.
+\* (In the directory of the sources the same-named files ARE the sources: "yes" changes nothing there.)
+PlaceDecoy(d) == d \in Decoys /\ d # cfg.decoy /\ cfg' = [cfg EXCEPT !.decoy = d, !.rep = 0] /\ UNCHANGED artifact
 Repeat        == cfg' = [cfg EXCEPT !.rep = @ + 1] /\ UNCHANGED artifact      \* new pid, later time
 
 \* one environment step named `act` that sets dimension value `v` ("" for Repeat)
@@ -54,24 +61,26 @@ EnvStep(act, v) ==
       [] act = "ToggleASLR" -> ToggleASLR(v)
       [] act = "TogglePerturb" -> TogglePerturb(v)
       [] act = "RelAbsPath" -> RelAbsPath(v)
+      [] act = "PlaceDecoy" -> PlaceDecoy(v)
       [] act = "Repeat" -> Repeat
       [] OTHER -> FALSE
 
 ActOf(d) == CASE d = "cwd" -> "ChangeCwd" [] d = "tmp" -> "ChangeTmp" [] d = "env" -> "ChangeEnv"
               [] d = "aslr" -> "ToggleASLR" [] d = "perturb" -> "TogglePerturb" [] d = "inv" -> "RelAbsPath"
+              [] d = "decoy" -> "PlaceDecoy"
 
 EnvNext == \/ \E d \in 1..Len(Dims) : \E v \in Vals(Dims[d]) : EnvStep(ActOf(Dims[d]), v)
            \/ Repeat
 
 \* the compiler is a function of the source: whatever it emitted first it emits again
-Init == /\ cfg \in {c \in [cwd : Cwds, tmp : Tmps, env : Envs, aslr : Aslrs, perturb : Perturbs, inv : Invs, rep : {0}] : TRUE}
+Init == /\ cfg \in [cwd : Cwds, tmp : Tmps, env : Envs, aslr : Aslrs, perturb : Perturbs, inv : Invs, decoy : Decoys, rep : {0}]
         /\ artifact = "A"
 vars == <<cfg, artifact>>
 Spec == Init /\ [][EnvNext /\ cfg'.rep <= 1]_vars
 
 ArtifactStable == [][artifact' = artifact]_vars
 TypeOK == /\ cfg.cwd \in Cwds /\ cfg.tmp \in Tmps /\ cfg.env \in Envs /\ cfg.aslr \in Aslrs
-          /\ cfg.perturb \in Perturbs /\ cfg.inv \in Invs /\ cfg.rep \in Nat
+          /\ cfg.perturb \in Perturbs /\ cfg.inv \in Invs /\ cfg.decoy \in Decoys /\ cfg.rep \in Nat
           /\ artifact = "A"
 
 -----------------------------------------------------------------------------
@@ -79,6 +88,7 @@ TypeOK == /\ cfg.cwd \in Cwds /\ cfg.tmp \in Tmps /\ cfg.env \in Envs /\ cfg.asl
 
 Get(c, d) == CASE d = "cwd" -> c.cwd [] d = "tmp" -> c.tmp [] d = "env" -> c.env
                [] d = "aslr" -> c.aslr [] d = "perturb" -> c.perturb [] d = "inv" -> c.inv
+               [] d = "decoy" -> c.decoy
 
 PairsOf(c) == {<<i, Get(c, Dims[i]), j, Get(c, Dims[j])>> : <<i, j>> \in {p \in (1..Len(Dims)) \X (1..Len(Dims)) : p[1] < p[2]}}
 AllPairs == UNION {{<<p[1], v1, p[2], v2>> : v1 \in Vals(Dims[p[1]]), v2 \in Vals(Dims[p[2]])} :
@@ -96,7 +106,7 @@ BestOf(S, cov) ==      \* S: set of <<act, v, cfg>>; a candidate with the larges
         T == {x \in S : Gain(x[3], cov) = g}
     IN SetToSeq(T)[(Start % Cardinality(T)) + 1]
 
-AllCfg0 == [cwd : Cwds, tmp : Tmps, env : Envs, aslr : Aslrs, perturb : Perturbs, inv : Invs, rep : {0}]
+AllCfg0 == [cwd : Cwds, tmp : Tmps, env : Envs, aslr : Aslrs, perturb : Perturbs, inv : Invs, decoy : Decoys, rep : {0}]
 
 \* walks are built by a recursive operator: Build(walks, cur, cov)
 \*   cur = the walk under construction: sequence of [act, v, cfg]
